@@ -25,7 +25,7 @@ def main():
     parser.add_argument('file', help='Verif file')
     parser.add_argument('-o', metavar="FILE", help='Output verif file', dest="ofilename", required=True)
     parser.add_argument('-i', type=verif.util.parse_numbers, default=[0], help='Initialization times in UTC (hours)', dest="init_times")
-    parser.add_argument('-lt', type=verif.util.parse_numbers, help='Lead times (hours)', dest="lead_times")
+    parser.add_argument('-lt', type=verif.util.parse_numbers, help='Lead times (hours)', dest="lead_times", required=True)
     parser.add_argument('-t', type=verif.util.parse_numbers, help='Thresholds', dest="thresholds")
     parser.add_argument('-q', type=verif.util.parse_numbers, help='Quantiles', dest="quantiles")
     parser.add_argument('--debug', help='Display debug information', action="store_true")
